@@ -155,6 +155,11 @@ def matches_known(f, entry):
         return False
     if entry.get('construct') and entry['construct'] != f.construct:
         return False
+    if entry.get('witness_max'):
+        # a known finding covers the listed state, not a worse one
+        for k, mx in entry['witness_max'].items():
+            if (f.witness or {}).get(k, 0) > mx:
+                return False
     if entry.get('witness_contains'):
         w = json.dumps(f.witness, sort_keys=True, default=str) + f.reason
         if entry['witness_contains'] not in w:
